@@ -38,13 +38,13 @@ FLOORS = {"C17.R5": 4, "C17.R1": 1, "C17.R2": 7, "C17.R3": 1, "C17.R4": 1}
 
 def run(chk):
     prog = chk.prog
-    r1_descriptor(chk)
+    chk.call(r1_descriptor, chk)
     rl = prog.func(f"{RUN}:run_local")
     chk.analysed(rl)
-    r2_runner(chk, rl)
-    r3_exit(chk, rl)
-    r4_recorded(chk, rl, "C17.R4")
-    r5_job_codec(chk)
+    chk.call(r2_runner, chk, rl)
+    chk.call(r3_exit, chk, rl)
+    chk.call(r4_recorded, chk, rl, "C17.R4")
+    chk.call(r5_job_codec, chk)
 
 
 def r1_descriptor(chk):
